@@ -18,8 +18,10 @@ CHECKS = {
              "self-closing style), expand_markup succeeds and its tag chunks nest to exactly the denoted (depth, name) list: every "
              "written element once per repetition, in document order, with its own name. Built from: tokenizer step lemmas, parser "
              "spine invariant (flat and groups), converter unrolling spec, snippet/transform identity on plain names, format_events. "
-             "Implicit-name decision rule proved over the table regenerated from the source (composition for nameless elements: "
-             "correspondence + oracle). Whole-pipeline model/implementation correspondence and an independent denotation oracle "
+             "Implicit names end to end (props/C01Implicit.v): for statements whose units are name | name.cls | name#id | .cls | #id "
+             "(groups, *N), a nameless element receives the documented implicit name of its parent in the denoted tree (table-free "
+             "rule proved equal to the lookup over the regenerated ELEMENT_MAP / inline list) and carries its class/id attribute. "
+             "Whole-pipeline model/implementation correspondence and an independent denotation oracle "
              "on expand() output cover attributes, snippets, wrap text and the remaining configurations.",
         technique="Coq proof: end-to-end composition (tokenizer, parser spine by mutual induction over statements and groups, converter unrolling, resolve/transform identity, formatter tag events) + generated ELEMENT_MAP table + whole-pipeline model/implementation correspondence and denotation oracle",
         ref="DESIGN.md §5 C01, §10"),
@@ -27,7 +29,8 @@ CHECKS = {
         text="Coq theorems for all token trees (without $# / implicit *): convert equals a pure unrolling spec with a budget "
              "(C02_limit_full, closed form of maxRepeat), exactly N consecutive copies indexed in order, counters of the nearest "
              "enclosing repeated unit, numbering value incl. reverse-with-base, zero padding width, tokenization of every $..$@-M form, "
-             "budget step/exhausted/enough lemmas. Independent oracle computes the expected forest from the abbreviation AST and "
+             "budget step/exhausted/enough lemmas; every tree the parser returns on tokenizer output free of `$#` / bare `*` is in "
+             "that domain (parser_output_clean), and the closed form extends to implicit repeaters with wrap text. Independent oracle computes the expected forest from the abbreviation AST and "
              "compares with a tag parse of expand() output; extracted spec and model compared with the implementation.",
         technique="Coq proof by structural induction over token trees (converter vs unrolling spec with budget) + numbering arithmetic lemmas + model/implementation correspondence and AST oracle",
         ref="DESIGN.md §5 C02"),
@@ -35,17 +38,22 @@ CHECKS = {
         text="Coq theorems for ALL attribute lists and both reverse settings: merge_attributes computes a short merge spec (stable "
              "de-duplication at the first position, class values joined by single spaces in written order, last value wins / first "
              "under reverseAttributes, flag rules); decision table of push_attribute over all configs, names, values and flags "
-             "(quotes, braces, boolean expansion/compaction, implied dropped, empty value = tabstop, name mapping); attribute-set "
-             "parsing round trip at token level (_partial: character level and shorthands by correspondence). Independent oracle "
+             "(quotes, braces, boolean expansion/compaction, implied dropped, empty value = tabstop, name mapping); CHARACTER level: for every "
+             "element written as name + #id/.class shorthands + [ ... ] sets (valueless, unquoted, quoted, {expr}, boolean `n.`, implied "
+             "`!n`) tokenize+parse+convert yields exactly the written mentions in order with value, type and flags, and the whole expand "
+             "pipeline prints `<name` + merged mentions through the output table + `>text</name>` (BEM off); flat statements at text "
+             "level. Not covered by a theorem: $ numbering/fields in values, bare quoted attributes, jsx `.{e}`. Independent oracle "
              "parses the tags of expand() output and applies the rules to the generated mentions.",
         technique="Coq proof by induction over attribute lists (merge loop vs spec) and case analysis of push_attribute + model/implementation correspondence (output string and full parse tree) and attribute oracle",
         ref="DESIGN.md §5 C03"),
     'C04': dict(
         text="Coq theorems: text_literal for ALL brace-balanced payloads (tokenize+parse+convert of name{T} gives [unescape T]), "
-             "placeholder totality, group brackets, wrap_plain for all trees and texts, wrap text on leaves and (partial: state-purity "
-             "assumption, no nested repeaters) implicit-repeater wrap, text reaches the stream verbatim split only at CR/LF/CRLF, "
-             "children after text. Attribute-position compositions are partial (correspondence + oracle). Independent oracle over the "
-             "whole punctuation alphabet and wrap-line lists.",
+             "placeholder totality, group brackets, wrap_plain for all trees and texts, and the implicit-repeater wrap clause IN FULL "
+             "(props/C04Wrap.v: convert equals a pure spec for every token tree incl. nested explicit/implicit repeaters and `$#` at "
+             "any depth, every line list, every budget; from the abbreviation text itself), text reaches the stream verbatim split only at CR/LF/CRLF, "
+             "children after text; attribute values are the written text character for character (quoted, unquoted with balanced "
+             "parentheses, expression), a[b=(c)] end to end, text on elements with attributes through expand. Independent oracle over "
+             "the whole punctuation alphabet and wrap-line lists.",
         technique="Coq proof by induction over the payload (tokenizer literal scanner with brace depth) and over converted forests + model/implementation correspondence and payload oracle",
         ref="DESIGN.md §5 C04"),
     'C05': dict(
@@ -124,7 +132,10 @@ CHECKS = {
              "and for every reachable stream every callback event sits at exactly the offset, line and column it reports in the final "
              "string (callback_positions_exact; any newline string: relative to the stream's own line ends); tabstops_in_order for "
              "trees without explicit fields (HTML and haml/pug/slim), explicit fields keep relative order and are disjoint across values, "
-             "field counter monotone. Stylesheet formatter: covered by the stream theorem and the oracle. Oracle checks every callback "
+             "field counter monotone. Stylesheet formatter (props/C13Css.v, stream model beside the string model with os_value = stringify "
+             "proved): its stream is reachable, every callback position exact for every abbreviation and configuration, field callbacks "
+             "are the resolved tokens in document order with their own indices (stylesheet indices may repeat across properties, as "
+             "the code, its tests and upstream do: the numbering clause speaks about markup output). Oracle checks every callback "
              "invocation against the final string (markup and stylesheet syntaxes, \n / \r\n / custom newlines, indent, baseIndent).",
         technique="Coq proof of a stream-position invariant over all operation sequences + reachability of formatter streams by induction over the tree + callback-event correspondence and position oracle",
         ref="DESIGN.md §5 C13"),
